@@ -323,6 +323,23 @@ def g4_task(payload):
                     trusted.update(res["trusted"])
                 except (pysym.NotInSubset, ref.Unsupported) as e:
                     obs.append(dict(id=oid, status="undecided", detail=f"outside the verified subset: {e}", unit=rec.text[:800]))
+        if pid == "C18":
+            from . import units
+
+            probs = []
+            nunits = 0
+            for r in recs:
+                try:
+                    m = ast.parse(r.text)
+                except SyntaxError:
+                    continue
+                for n in ast.walk(m):
+                    if isinstance(n, ast.FunctionDef):
+                        nunits += 1
+                        params = {a.arg for a in n.args.args + n.args.kwonlyargs} - {"cls"}
+                        probs += [f"{n.name}: {p}" for p in units.scan_mutations(n, params)]
+            obs.append(dict(id=f"{pid}.G4{label}/frame", status="proved" if not probs else "refuted", unit=f"{nunits} generated functions",
+                            detail="; ".join(probs)[:600]))
         return {"obligations": obs, "trusted": sorted(trusted)}
     finally:
         build.drop_module(mod)
@@ -344,3 +361,96 @@ def _ob(oid, res, rec, what, cls):
         ob["status"] = "refuted" if ob["status"] == "proved" else ob["status"]
         ob["detail"] = (ob.get("detail", "") + " no feasible returning path (vacuous)").strip()
     return ob
+
+
+# ---------------------------------------------------------------------------------------------
+# codec units (C15) and sharing/frame obligations (C18)
+# ---------------------------------------------------------------------------------------------
+def codec_source(texpr, dialect="default"):
+    d = DIALECTS[dialect]
+    src = [PRELUDE, "from mashumaro.codecs.basic import BasicDecoder, BasicEncoder"]
+    dd = ""
+    if d["cfg"]:
+        src += ["class DD(Dialect):", f"    {d['cfg']}"]
+        dd = ", default_dialect=DD"
+    src.append(f"T = {texpr}")
+    src.append(f"DEC = BasicDecoder(T{dd})")
+    src.append(f"ENC = BasicEncoder(T{dd})")
+    src.append(f"DECL = BasicDecoder(List[T]{dd})")
+    src.append(f"ENCL = BasicEncoder(List[T]{dd})")
+    return "\n".join(src) + "\n"
+
+
+def codec_task(payload):
+    from . import build, units, harvest
+
+    pid, texpr, dialect = payload
+    label = f"[{texpr}]{'' if dialect == 'default' else '@' + dialect}"
+    src = codec_source(texpr, dialect)
+    try:
+        mod, recs = build.build_module(src)
+    except Exception as e:
+        return {"obligations": [dict(id=f"{pid}.codec{label}/builds", status="refuted", unit="codec creation",
+                                     detail=f"codec does not build: {type(e).__name__}: {e}",
+                                     witness={"confirmed": True, "source": src, "why": f"{type(e).__name__}: {e}"})]}
+    obs = []
+    try:
+        table = helper_table(recs)
+        d = DIALECTS[dialect]
+        T = mod.T
+        slots = []
+        for r in recs:
+            slots += [f"record {r.seq}: {p}" for p in units.slot_obligations(r)]
+        obs.append(dict(id=f"{pid}.codec{label}/slots", status="proved" if not slots else "refuted",
+                        detail="; ".join(slots)[:600], unit="module-level statements of every harvested text"))
+        for objname, direction, shape in (("DEC", "dec", T), ("ENC", "enc", T), ("DECL", "dec", typing.List[T]), ("ENCL", "enc", typing.List[T])):
+            obj = getattr(mod, objname)
+            fname = "decode" if direction == "dec" else "encode"
+            oid = f"{pid}.codec{label}/{objname}"
+            rec_fn = None
+            for r in recs:
+                g = r.globals or {}
+                if g.get("decoder_obj" if direction == "dec" else "encoder_obj") is obj:
+                    m = ast.parse(r.text)
+                    fns = [n for n in m.body if isinstance(n, ast.FunctionDef) and n.name == fname]
+                    rec_fn = (r, fns[0] if fns else None, m)
+            if rec_fn is None:
+                obs.append(dict(id=oid, status="error", detail="no harvested unit for the codec object"))
+                continue
+            r, fn, m = rec_fn
+            gen = ref.RefGen(native=d["native"], no_copy=d["no_copy"])
+            gen.static_dataclasses = True
+            try:
+                if direction == "dec":
+                    refsrc = gen.dec(shape, "x")
+                else:
+                    refsrc = gen.enc(shape, "x")
+                if fn is None:
+                    # CALL_EXPR shortcut: setattr(obj, 'decode', <callable>): the callable itself must be the reference callee
+                    st = m.body[0]
+                    callee_src = ast.unparse(st.value.args[2])
+                    fn = ast.parse(f"def {fname}(value):\n    return {callee_src}(value)").body[0]
+                res = units.verify_unary(fn, dict(r.globals), refsrc, gen, direction=direction, inline=table,
+                                         hooks={"call": units.unit_call_hook(units.unit_index(harvest.RECORDER.records))})
+            except (pysym.NotInSubset, ref.Unsupported) as e:
+                obs.append(dict(id=oid, status="undecided", detail=f"outside the verified subset: {e}", unit=r.text[:600]))
+                continue
+            bad = [v for v in res["verdicts"] if v.status != "proved"]
+            ob = dict(id=oid, unit=f"{objname}.{fname}", paths=res["paths"], queries=res["queries"], solver_s=round(res["solver_s"], 4),
+                      backend="z3", sample=r.text[:800] + "  ## REF: " + refsrc)
+            if not bad and res["cover"]:
+                ob["status"] = "proved"
+            else:
+                ob["status"] = "refuted" if (any(v.status == "refuted" for v in bad) or not res["cover"]) else "unknown"
+                v0 = bad[0] if bad else None
+                ob["detail"] = (f"{len(bad)}/{len(res['verdicts'])} paths disagree with the reference {refsrc}; first: {v0.path.kind} {v0.path.value!r}"[:900]
+                                if v0 else "no feasible returning path")
+                ob["solver_output"] = [f"{v.name}: {v.status} {v.detail}" for v in bad][:10]
+            obs.append(ob)
+            if res["mutations"]:
+                obs.append(dict(id=oid + "/frame", status="refuted", detail="; ".join(res["mutations"])[:500]))
+            else:
+                obs.append(dict(id=oid + "/frame", status="proved", unit=f"{objname}.{fname}"))
+        return {"obligations": obs}
+    finally:
+        build.drop_module(mod)
